@@ -1024,11 +1024,9 @@ push_expansion(const string &input, const CPPManifest *manifest, const YYLTYPE &
     infile->_col_number = loc.first_column;
     infile->_lock_position = true;
 
-    if (!manifest->_has_parameters) {
-      // If the manifest does not use arguments, then disallow recursive
-      // expansion.
-      infile->_ignore_manifest = true;
-    }
+    // While the expansion of a macro is being scanned, the name of that
+    // macro is not expanded again, whether or not the macro takes arguments.
+    infile->_ignore_manifest = true;
 
     infile->_prev_last_c = _last_c;
     infile->_parent = _infile;
@@ -1098,12 +1096,14 @@ expand_manifests(string &expr, bool expand_undefined,
             manifest->extract_args(args, expr, p);
           }
 
-          // Don't consider this manifest when expanding the arguments or
-          // result, to prevent recursion.
+          // The arguments are expanded as part of the text in which the
+          // invocation was found, so F(F(1)) expands both invocations.  When
+          // the result is scanned again, this manifest is not considered, to
+          // prevent recursion.
+          string result = manifest->expand(args, expand_undefined, ignores);
+
           CPPManifest::Ignores nested_ignores(ignores);
           nested_ignores.insert(manifest);
-
-          string result = manifest->expand(args, expand_undefined, nested_ignores);
           expand_manifests(result, expand_undefined, nested_ignores);
 
           // Put the expansion in place of the invocation.  It consists of
@@ -2641,9 +2641,11 @@ expand_manifest(const CPPManifest *manifest, const YYLTYPE &loc) {
     }
   }
 
-  // Keep track of the manifests we're supposed to ignore.
+  // Keep track of the manifests we're supposed to ignore while expanding the
+  // arguments: the ones whose expansion we are presently scanning.  (This
+  // manifest itself is not among them yet; its expansion is protected against
+  // recursion once it is pushed.)
   CPPManifest::Ignores ignores;
-  ignores.insert(manifest);
 
   InputFile *infile = _infile;
   while (infile != nullptr) {
